@@ -56,14 +56,15 @@ open QV QV.Writer QV.ServerSafety
   equal to the names given up to ASCII case), `C12_refinement_without_standard_mode` (sessions that
   never use `Standard` mode: the decoded message *equals* the abstract message; for `Disabled` mode
   alone also `C12_disabled_refinement`, proved from the octets), `C12_header_all_sequences` (what
-  the header octets are). What separates these theorems from `C12_full` as a single statement
-  (see the end of this file): `C12_full_one_segment_modulo_audit_partial` proves `checkSession … =
-  "ok"` on what `Driver.runModel` observes, for sessions without `clear_rrs`, from one premise — the
-  pointer audit `auditPointers` of the decoded message (C13 proves the audit's conditions on the
-  writer's pointer log; that the pointers the decoder finds are exactly the logged ones is not
-  proved). Everything else `checkSession` does is discharged: the walk over the status strings with
-  `absOk` and `justified` (`C12_failures_justified`), the getters, header, questions and records by
-  item mode, OPT, TSIG, size.
+  the header octets are).
+  **`C12_full` itself is proved: `C12_full_holds : C12_full`** (end of this file), for the statement
+  as corrected below (typed calls, limits of at most 65535, MAC of the algorithm's size). The way
+  there, each step a theorem of this file: the walk of `checkSession` over the status strings
+  with `absOk` and `justified` (`C12_failures_justified`, `C12_walk_reaches_final_check_partial`),
+  the getters, header, questions and records by item mode, OPT, TSIG, size
+  (`C12_final_check_clauses_partial`, `C12_segment_reduces_to_pointer_audit_partial`), the pointer
+  audit, sessions of one segment (`C12_full_without_clear_rrs_partial`), all sessions
+  (`C12_full_all_sessions_partial`).
   The audit premise is proved (`QV.Proofs.WriterAudit`, `C12_pointer_audit_passes_partial`), in four
   layers: (1) every name write records only label starts of the name it leaves at the old cursor
   (`PhysLab`, `NameSpec.ok`) and writes the name literally in `Disabled` mode; (2) the layout
@@ -80,9 +81,9 @@ open QV QV.Writer QV.ServerSafety
   `C12_full` word for word for sessions without `clear_rrs`, with no premise.
   Sessions with `clear_rrs` are covered too: `C12_full_all_sessions_partial` is `C12_full` for every
   session, with the MAC-size hypothesis asked at every prefix of the calls instead of only at the end.
-  STILL OPEN of `C12_full` as a single statement: that last difference — that a signing TSIG
-  configuration keeps its algorithm for the rest of the session (so that the MAC size known for the
-  final state is the size at every earlier `finish`). (d) is stated for limits of at
+  That difference is closed by `after_sig` (a TSIG configuration keeps its algorithm for the rest of
+  the session), so `C12_full_holds : C12_full` — the single statement, as corrected above, is proved.
+  Nothing of `C12_full` is open. (d) is stated for limits of at
   most 65535 (RDLENGTH is a 16-bit field; the writer itself accepts larger buffers). The driver
   evaluates `checkSession` itself on 100 % of the generated sessions (model column and, on the
   implementation's octets, spec column of `waudit`). -/
@@ -784,6 +785,20 @@ theorem C12_full_all_sessions_partial (buf : Bytes) (limit : Nat) (mode : CMode)
       Spec.Message.checkSession buf.size limit (Driver.toSpecMode mode) (ops.map Driver.toSpecOp)
         r.statuses (r.pre ++ [m]) r.mac = "ok" :=
   checkSession_all buf limit mode s ops mac hnew hr ht hlim hv hmac hsz
+
+/-! ### `C12_full`
+
+  `C12_full_holds`: the statement `C12_full` (as corrected at the top of this file) is a theorem —
+  for every buffer, limit (at most 65535), initial compression mode and every sequence of typed
+  public calls that respects the hint contract (mode changes, templates, any number of `clear_rrs`,
+  EDNS, TSIG with a MAC of the algorithm's size), `Spec.Message.checkSession` returns `"ok"` on
+  exactly what the driver's observer records from the model. From `C12_full_all_sessions_partial`
+  and the persistence of the TSIG algorithm (`after_sig`, `QV.Proofs.WriterSessions`: `set_tsig`
+  fails once a TSIG is configured, `update_time_signed` changes the time only, the templates keep the
+  algorithm). -/
+theorem C12_full_holds : C12_full := by
+  intro buf limit mode s ops mac hnew hr ht hlim hv hmac hsz
+  exact checkSession_full buf limit mode s ops mac hnew hr ht hlim hv hmac hsz
 
 /-- the pointer audit of the specification, alone: it passes on the message of every session
     without `clear_rrs` (typed calls, limits of at most 65535) — in every compression mode, with
